@@ -392,3 +392,149 @@ def proof_coverage(proof):
         "axioms_used": axioms,
         "audit_hits": proof["audit"],
     }
+
+
+# ----------------------------------------------------------------------------- generic differential stage
+
+def differential(ctx, name, proof, cases, line_of, oracle, norm_impl=None, norm_model=None, nontrivial=None,
+                 shrink_candidates=None, more_cases=None, correspondence_name="", model_applies=None):
+    """Stages C, D, E and the verdict logic shared by the package-level checks.
+    cases: list of case objects; line_of(case) -> protocol line; oracle(case, impl_out) -> None | (key, msg).
+    Returns a dict with counts for the evidence."""
+    okm, logm, model = ocaml_build(name)
+    okg, logg, impl = go_build(name)
+    ctx.say("builds: model=%s harness=%s" % (okm, okg))
+    lines = [line_of(c) for c in cases]
+    corr_broken = None
+    impl_out = model_out = None
+    if okg:
+        impl_out, err = run_lines(impl, lines)
+        if err:
+            corr_broken, impl_out = "harness run failed: " + err, None
+    else:
+        corr_broken = "harness does not build against the current tree:\n" + logg[-1500:]
+    if okm:
+        model_out, err = run_lines(model, lines)
+        if err:
+            corr_broken, model_out = (corr_broken or "") + " model run failed: " + err, None
+    else:
+        corr_broken = (corr_broken or "") + " model does not build:\n" + logm[-1500:]
+
+    def run1(c):
+        o, err = run_lines(impl, [line_of(c)])
+        return None if err else o[0]
+
+    def shrink(c, key):
+        if not shrink_candidates:
+            return c
+        cur, changed, budget = c, True, 400
+        while changed and budget > 0:
+            changed = False
+            for cand in shrink_candidates(cur):
+                budget -= 1
+                if budget <= 0:
+                    break
+                o = run1(cand)
+                if o is None:
+                    continue
+                r = oracle(cand, o)
+                if r is not None and r[0] == key:
+                    cur, changed = cand, True
+                    break
+        return cur
+
+    oracle_fail = {}
+    if impl_out is not None:
+        for c, o in zip(cases, impl_out):
+            r = oracle(c, o)
+            if r:
+                oracle_fail.setdefault(r[0], []).append((c, o, r[1]))
+    mism = []
+    if impl_out is not None and model_out is not None:
+        for c, a, b in zip(cases, impl_out, model_out):
+            if model_applies is not None and not model_applies(c):
+                continue
+            a2 = norm_impl(a) if norm_impl else a
+            b2 = norm_model(b) if norm_model else b
+            if a2 != b2:
+                mism.append((c, a, b))
+    ctx.say("cases=%d oracle-fail-classes=%s mismatches=%d" % (len(cases), {k: len(v) for k, v in oracle_fail.items()}, len(mism)))
+    found_input = False
+    for key, lst in sorted(oracle_fail.items()):
+        c, o, msg = min(lst, key=lambda x: len(line_of(x[0])))
+        if key not in ctx.findings:
+            c = shrink(c, key)
+        o = run1(c) or o
+        found_input = True
+        ctx.finding_or_violation(key, {"kind": "property-fails", "classifier_key": key, "case": line_of(c),
+                                       "observed": o, "message": msg, "count_in_run": len(lst)},
+                                 "%s: %s; input %s" % (key, msg, line_of(c)[:300]))
+    new_violation = any(True for _ in ctx.violations)
+    if (mism or corr_broken or not proof["ok"]) and not new_violation:
+        if okg and more_cases:
+            extra = more_cases()
+            eo, err = run_lines(impl, [line_of(c) for c in extra])
+            if not err:
+                for c, o in zip(extra, eo):
+                    r = oracle(c, o)
+                    if r and r[0] not in ctx.findings:
+                        c = shrink(c, r[0])
+                        ctx.finding_or_violation(r[0], {"kind": "property-fails", "classifier_key": r[0], "case": line_of(c),
+                                                        "observed": run1(c), "message": r[1]},
+                                                 "%s: %s; input %s" % (r[0], r[1], line_of(c)[:300]))
+                        new_violation = True
+                        break
+        if not new_violation:
+            if not proof["ok"]:
+                ctx.violation({"kind": "proof-broken", "theorem": proof.get("failed_theorem"), "audit": proof["audit"],
+                               "log": proof["log"][-3000:]}, what="proof obligation no longer checks", nofail=True)
+            if corr_broken:
+                ctx.violation({"kind": "correspondence-broken", "correspondence": correspondence_name, "detail": corr_broken},
+                              what="correspondence could not be established", nofail=True)
+            elif mism:
+                c, a, b = min(mism, key=lambda x: len(line_of(x[0])))
+                ctx.violation({"kind": "correspondence-broken", "correspondence": correspondence_name,
+                               "case": line_of(c), "implementation": a, "model": b, "count_in_run": len(mism)},
+                              what="model and implementation disagree", nofail=True)
+    distinct = len({l for c, l in zip(cases, lines) if (nontrivial(c) if nontrivial else True)})
+    return {"evaluations": len(cases), "distinct_nontrivial": distinct,
+            "samples": [l[:400] for l in (lines[:2] + lines[len(lines) // 2:len(lines) // 2 + 2])],
+            "traces_validated_against_impl": 0 if impl_out is None or model_out is None else len(cases) - (0 if model_applies is None else sum(1 for c in cases if not model_applies(c))),
+            "disagreements_checked": len(mism)}
+
+
+# ----------------------------------------------------------------------------- translator (stage B)
+
+def translator_build():
+    tr = os.path.join(VERIF, "go", "translator")
+    out = os.path.join(BIN, "translator")
+    os.makedirs(BIN, exist_ok=True)
+    with Lock("translator"):
+        srcs = walk(tr, (".go", ".mod", ".sum"))
+        stamp = file_hash(srcs)
+        sp = os.path.join(BUILD, ".translator.stamp")
+        if os.path.exists(out) and os.path.exists(sp) and open(sp).read() == stamp:
+            return True, ""
+        rc, log = sh(["go", "build", "-o", out, "."], cwd=tr, env=goenv(), timeout=900)
+        if rc == 0:
+            open(sp, "w").write(stamp)
+        return rc == 0, log
+
+
+def generate(what, vname):
+    """Regenerate coq/theories/Generated/<vname>.v from /repo's current source.
+    Returns (ok, changed, log). The file is only rewritten when its content changes."""
+    ok, log = translator_build()
+    if not ok:
+        return False, False, "translator build failed: " + log
+    rc, out = sh([os.path.join(BIN, "translator"), what, REPO], timeout=600)
+    if rc != 0:
+        return False, False, "translator %s failed: %s" % (what, out[-2000:])
+    path = os.path.join(COQ, "theories", "Generated", vname + ".v")
+    with Lock("coq"):
+        old = open(path).read() if os.path.exists(path) else None
+        if old != out:
+            with open(path, "w") as f:
+                f.write(out)
+            return True, True, ""
+    return True, False, ""
